@@ -4,6 +4,7 @@ import (
 	"fmt"
 	"sort"
 	"strconv"
+	"strings"
 
 	siCommon "github.com/apache/yunikorn-scheduler-interface/lib/go/common"
 
@@ -335,10 +336,18 @@ func (g *Gen) make(kind string) *Op {
 		if !g.P.Reloads {
 			return nil
 		}
-		g.cfgSeed++
-		m := GenConfig(NewRng(Mix(r.U64(), g.cfgSeed)), g.P.Cfg)
-		g.pendingMeta = m
-		return &Op{Kind: kind, Config: m.YAML}
+		// a queue that holds applications keeps its type (leaf / parent): the core accepts such a change but the
+		// applications of a leaf that becomes a parent can no longer be scheduled or accounted for by its children
+		for try := 0; try < 6; try++ {
+			g.cfgSeed++
+			m := GenConfig(NewRng(Mix(r.U64(), g.cfgSeed)), g.P.Cfg)
+			if g.typeChangeWithApps(m) {
+				continue
+			}
+			g.pendingMeta = m
+			return &Op{Kind: kind, Config: m.YAML}
+		}
+		return nil
 	case OpQuotaPre, OpCleanup:
 		return &Op{Kind: kind}
 	}
@@ -491,4 +500,45 @@ func (g *Gen) makeAsk() *Op {
 		}
 	}
 	return op
+}
+
+
+// typeChangeWithApps: the new configuration turns a leaf with applications into a parent, or a parent with
+// applications below it into a leaf.
+func (g *Gen) typeChangeWithApps(m *CfgMeta) bool {
+	if g.E.Cur == nil {
+		return false
+	}
+	cq := cfgQueues(m)
+	appsBelow := map[string]int{}
+	for _, a := range g.E.Cur.Apps {
+		for p := a.Queue; p != ""; {
+			appsBelow[p]++
+			i := strings.LastIndex(p, ".")
+			if i < 0 {
+				break
+			}
+			p = p[:i]
+		}
+	}
+	for path, q := range g.E.Cur.Queues {
+		c := cq[path]
+		if c == nil || appsBelow[path] == 0 {
+			continue
+		}
+		newLeaf := c.Leaf
+		if q.Leaf != newLeaf {
+			return true
+		}
+	}
+	// a new leaf below an existing leaf with applications also makes that leaf a parent
+	for path := range cq {
+		for p := path; strings.Contains(p, "."); {
+			p = p[:strings.LastIndex(p, ".")]
+			if q := g.E.Cur.Queues[p]; q != nil && q.Leaf && appsBelow[p] > 0 {
+				return true
+			}
+		}
+	}
+	return false
 }
